@@ -17,6 +17,10 @@ def gen_case(rng, k):
     c = {"lo": lo, "hi": hi, "r": r, "scheme": scheme, "fn": fn, "natoms": n, "forces_comm": None, "energies": None}
     mode = rng.choice(["zero", "reference", "random", "random", "large", "huge", "nodata"])
     c["mode"] = mode
+    r2 = random.Random(k * 104729 + 17)
+    if r2.random() < 0.4:
+        # built with other settings, used once, then re-tuned through the public attributes
+        c["late"] = {"r": r * r2.choice([0.25, 4.0, 10.0]), "lo": lo * 0.5, "hi": hi + 0.25, "fn": r2.choice(["tanh", "exp"]), "scheme": scheme}
     if mode == "nodata":
         return c
     if scheme == "energy":
@@ -103,8 +107,14 @@ def run(res: C.Result):
             continue
         lo, hi = c["lo"], c["hi"]
         tol_dir = 4 * ulp * max(abs(lo), abs(hi), 1e-300)
-        for v, d in zip(r["v"], r["delta"]):
+        dist["retuned_after_construction"] = dist.get("retuned_after_construction", 0) + bool(c.get("late"))
+        for v, d, vi in zip(r["v"], r["delta"], r["v_impl"]):
             dist["coords"] += 1
+            if not (math.isnan(v) or math.isinf(v)) and not abs(vi - v) <= 1e-9 * abs(v):
+                if True:
+                    res.fail(f"{c['scheme']}:variation-coefficient", f"the committee data have variation coefficient {v!r} (two-pass standard deviation) but update_delta used {vi!r}",
+                             {"input": c, "v": v, "v_impl": vi})
+                    continue
             if math.isnan(v) or math.isinf(v):
                 dist["nan_coef"] += 1   # 0/0 coefficient: not a finite variance, outside the quantifier
                 continue
